@@ -290,11 +290,12 @@ int main(int argc, char **argv)
 	if (!init_libTMCG()) return 2;
 	MuteCerr mute;
 	bool thorough = A.tier == "thorough" && !A.has("light");   // --light: quick-sized alphabets (asan pass of the thorough tier)
+	bool light = A.has("light");   // sanitizer pass: n <= 4, one variant per faulty execution, 128-bit group only
 	uint64_t seed = mcenv::env_seed();
 	Group G1, G2;
 	make_small(G1, 128, 64, seed);
 	make_small(G2, 256, 160, seed);
-	size_t nmax = thorough ? 7 : 5;
+	size_t nmax = light ? 4 : thorough ? 7 : 5;
 	if (A.has("nmax")) nmax = A.geti("nmax", nmax);
 	size_t nmin = A.geti("nmin", 2);
 	// deviation alphabets
@@ -328,11 +329,12 @@ int main(int argc, char **argv)
 						if (nf == 0) for (int v = 0; v < (thorough ? 8 : 3); v++) variants.push_back(v);
 						else if (nf == 1) { variants.push_back(0); if (thorough) variants.push_back(1); variants.push_back(2); if (thorough) variants.push_back(3); }
 						else { variants.push_back(0); variants.push_back(2); }
+						if (light && nf) variants.resize(1);
 						for (size_t vi = 0; vi < variants.size(); vi++)
 							for (int gi = 0; gi < 2; gi++)
 							{
 								int vs = variants[vi];
-								if (gi == 1 && !(N <= 4 || (thorough && nf <= 1 && vs == 0))) continue;
+								if (gi == 1 && (light || !(N <= 4 || (thorough && nf <= 1 && vs == 0)))) continue;
 								const Group &G = gi ? G2 : G1;
 								std::string cid = "n" + str(N) + "t" + str(T) + "/F";
 								std::vector<Dev> devs;
